@@ -6,9 +6,9 @@ import os
 
 import vlib
 
-OPC = {"set": 0, "get": 1, "del": 2, "exists": 3, "append": 4, "remove": 5, "incr": 6, "setnx": 7, "dropc": 8, "dropall": 9, "setexp": 10}
+OPC = {"set": 0, "get": 1, "del": 2, "exists": 3, "append": 4, "remove": 5, "incr": 6, "setnx": 7, "dropc": 8, "dropall": 9, "setexp": 10, "setlist": 0}   # SetList(key, values) is modelled as Set(key, list): same steps under the key lock
 UNMODELLED = ("incrby", "sethash", "gethash", "delhash")
-MUTATING = ("set", "del", "setnx", "append", "remove", "incr", "incrby", "sethash", "delhash", "setexp")
+MUTATING = ("set", "setlist", "del", "setnx", "append", "remove", "incr", "incrby", "sethash", "delhash", "setexp")
 
 # key pool: real prefixes of every class plus near-misses; classified by the REAL getCategory at run time
 POOL = ["tunnox:user:%d", "tunnox:persist:mapping:%d", "tunnox:stats:persistent:%d", "tunnox:client:%d",
@@ -93,11 +93,15 @@ class Gen:
                     o = rng.choice(choices)
                     ops.append({"op": o, "k": k, "v": self.fresh()})
                 elif kind == "l":
-                    o = rng.choice(["append", "append", "remove", "get", "setexp"])
+                    o = rng.choice(["append", "append", "remove", "get", "setexp", "setlist"])
+                    if o == "setlist" and any(x["op"] == "setlist" and x["k"] == k for t in threads for x in t["ops"]) or o == "setlist" and any(x["op"] == "setlist" and x["k"] == k for x in ops):
+                        o = "append"
                     if o == "append":
                         e = self.fresh()
                         appended[k].add(e)
                         ops.append({"op": o, "k": k, "v": e})
+                    elif o == "setlist":
+                        ops.append({"op": o, "k": k, "v": 0, "l": [self.fresh(), self.fresh()]})
                     elif o == "remove":
                         cand = sorted(appended[k]) + [1, 2, 3]
                         ops.append({"op": o, "k": k, "v": rng.choice(cand)})
@@ -320,6 +324,8 @@ def exhaustive_cases(cats, locked=False):
     pairs = [("get", "del", g, 2, "s"), ("get", "set", g, 2, "s"), ("append", "append", l, l, "l"), ("append", "remove", l, l, "l"),
              ("set", "set", 2, 2, "s"), ("set", "del", 2, 2, "s"), ("exists", "del", 2, 2, "s"),
              # SetExpiration is a read-modify-write on the cache tier: it races every mutation of the key
+             # SetList is the third list writer: against cache-miss readers and list read-modify-writers
+             ("get", "setlist", g, 2, "s"), ("append", "setlist", l, 2, "l"), ("remove", "setlist", l, 2, "l"), ("setexp", "setlist", 2, 2, "s"),
              ("setexp", "set", 2, 2, "s"), ("setexp", "del", 2, 2, "s"), ("setexp", "append", 2, l, "l"), ("setexp", "remove", 2, l, "l")]
     keys = ["tunnox:user:1", "tunnox:conn_state:1", "tunnox:client_mappings:1", "tunnox:temp:1"]
     for (a, b, sa, sb, kind), key, shared, pers, cold in itertools.product(pairs, keys, (True, False), (True, False), (True, False)):
@@ -331,7 +337,10 @@ def exhaustive_cases(cats, locked=False):
         val = {"l": [1]} if kind == "l" else {"v": 1}
         init = ([] if cold else [dict(tier=ct, k=0, **val)]) + ([dict(tier=2, k=0, **val)] if two else [])
         rd = {"ops": [{"op": "get", "k": 0, "v": 0}], "faults": []}
-        thr = [{"ops": [{"op": a, "k": 0, "v": 2}], "faults": []}, {"ops": [{"op": b, "k": 0, "v": 1 if b == "remove" else 3}], "faults": []}, rd]
+        opb = {"op": b, "k": 0, "v": 1 if b == "remove" else 3}
+        if b == "setlist":
+            opb = {"op": b, "k": 0, "v": 0, "l": [7, 8]}
+        thr = [{"ops": [{"op": a, "k": 0, "v": 2}], "faults": []}, {"ops": [opb], "faults": []}, rd]
         for pos in itertools.combinations(range(sa + sb), sa):
             inter = [1] * (sa + sb)
             for p in pos:
